@@ -48,6 +48,7 @@ REQUIRED_COUNTERS = ['on_threshold_eq', 'on_threshold_noeq', 'decimal_threshold'
                      'falsy_jump_fraction:i', 'falsy_jump_fraction:F', 'falsy_jump_fraction:D',
                      'falsy_quota_fraction:i', 'falsy_quota_fraction:F', 'falsy_quota_fraction:D',
                      'beyond_2_53', 'beyond_1e28', 'huge_on_boundary', 'huge_one_off_boundary', 'decimal_context_inexact',
+                     'float_arith_inexact', 'mixed_F_votes_D_param', 'mixed_D_votes_F_param',
                      'names:int0', 'names:empty0', 'names:person',
                      'tie3_draw2', 'two_zero_vote', 'prev_absent', 'list_member_without_votes', 'off_list',
                      'more_seats_than_list', 'called_twice', 'other_config_first', 'after_exception',
@@ -294,33 +295,55 @@ def open_threshold(case, total):
 INT_QUOTAS = ('droop', 'hare_rounded', 'hagenbach_bischoff_ceil', 'hagenbach_bischoff_rounded')
 
 
+_EXACT_CACHE = {}
+
+
 def py_arith_exact(case):
-    """False when Python's own arithmetic on the numeric TYPES of an open-list case cannot represent the vote total,
-    total * jump_fraction or quota * quota_fraction exactly (Decimal context precision of 28 digits, float)"""
+    return arith_class(case) is None
+
+
+def arith_class(case):
+    """None, or why arithmetic in the parameters' own types would be inexact: 'sum' (Decimal vote total), 'decimal'
+    (28-digit context), 'float' (53 bits).  Since c90882d the implementation converts to exact rationals first, so only
+    'sum' still matters for it; the other two name the input class of the repaired defect (tags, counters)."""
     if case.get('op') != 'openlist':
-        return True
+        return None
+    key = json.dumps([case.get(k) for k in ('votes', '_types', 'jump_fraction', '_jftype', 'quota', 'quota_fraction',
+                                            '_qftype', 'n')])
+    r = _EXACT_CACHE.get(key)
+    if r is None:
+        if len(_EXACT_CACHE) > 200000:
+            _EXACT_CACHE.clear()
+        r = _EXACT_CACHE[key] = _py_arith_exact(case)
+    return r
+
+
+def _py_arith_exact(case):
+    if case.get('op') != 'openlist':
+        return None
     try:
         types = case.get('_types') or ['F'] * len(case['votes'])
         vals = [to_py(s, t) for (_, s), t in zip(case['votes'], types)]
         tot = sum(vals)
         ex_tot = sum((Fraction(s) for _, s in case['votes']), Fraction(0))
         if Fraction(tot) != ex_tot:
-            return False
+            return 'sum'
         if case.get('jump_fraction') is not None:
             jfp = to_py(case['jump_fraction'], case.get('_jftype', 'F'))
             if isinstance(jfp, (Decimal, float)) or isinstance(tot, (Decimal, float)):
-                if Fraction(tot * jfp) != ex_tot * Fraction(case['jump_fraction']):
-                    return False
+                tp = int(tot) if isinstance(tot, Fraction) and tot.denominator == 1 else tot
+                if Fraction(tp * jfp) != ex_tot * Fraction(case['jump_fraction']):
+                    return 'float' if isinstance(jfp, float) else 'decimal'
         if case.get('quota') is not None:
             qfp = to_py(case['quota_fraction'], case.get('_qftype', 'F'))
             if isinstance(qfp, (Decimal, float)):
                 qv = quota_value(case['quota'], ex_tot, case['n'])
-                qpy = int(qv) if case['quota'] in INT_QUOTAS else qv
+                qpy = int(qv) if qv.denominator == 1 else qv
                 if Fraction(qpy * qfp) != qv * Fraction(case['quota_fraction']):
-                    return False
+                    return 'float' if isinstance(qfp, float) else 'decimal'
     except (TypeError, OverflowError, ValueError, ArithmeticError):
-        return True
-    return True
+        return None
+    return None
 
 
 def spec_nbest(votes, n):
@@ -787,14 +810,6 @@ def impl(case):
     return guarded(run)
 
 
-def signature(case, clause):
-    """known findings are matched by op:clause, except the input class on which Python's Decimal arithmetic itself is
-    inexact (more than 28 significant digits needed) — one signature for all clauses there"""
-    if case.get('op') == 'openlist' and not py_arith_exact(case):
-        return 'openlist:decimal_context_rounding'
-    return f"{case.get('op')}:{clause}"
-
-
 def compare(case, iobs, mobs):
     if case['op'] == 'alt_ranks':
         # the model answers [[candidate, mean rank], ...]; equal mean ranks form groups compared as sets
@@ -812,10 +827,6 @@ def compare(case, iobs, mobs):
             pos += len(g)
         return None if pos == len(iobs) else f'impl={json.dumps(iobs)} model={json.dumps(mobs)}'
     if canon(iobs) == canon(mobs):
-        return None
-    if case['op'] == 'openlist' and not py_arith_exact(case) and oracle(case, iobs) and not oracle(case, mobs):
-        # the implementation computes the threshold in Decimal/float arithmetic that cannot hold it exactly and its
-        # answer violates the property (reported through the oracle as a known finding); the exact model is right
         return None
     if case['op'] == 'seatless' and isinstance(iobs, list) and isinstance(mobs, list) \
             and sorted(iobs) == sorted(mobs) and 'alt' in sel_kinds(case['sel']):
@@ -1236,15 +1247,10 @@ QF_RICH = [('1', 'i'), ('1', 'F'), ('1/2', 'F'), ('8/5', 'F'), ('3/50', 'F'), ('
 
 
 def _demote_inexact(case):
-    """keep Python's own arithmetic exact: a float / Decimal parameter whose product cannot be held exactly becomes the
-    same number as a Fraction (the inexact Decimal class has its own directed generator)"""
-    if not py_arith_exact(case):
-        vt = set(case.get('_types') or [])
-        if 'D' not in vt:
-            if case.get('_jftype') in ('f', 'D'):
-                case['_jftype'] = 'F'
-            if case.get('_qftype') in ('f', 'D'):
-                case['_qftype'] = 'F'
+    """since c90882d the open list multiplies exact rationals whatever the types of its parameters: nothing is demoted
+    any more; only a Decimal vote TOTAL beyond the context precision stays outside (sum() of Decimals rounds)"""
+    if arith_class(case) == 'sum':
+        case['_types'] = ['F' if t == 'D' else t for t in case['_types']]
     return case
 
 
@@ -1266,13 +1272,10 @@ def gen_openlist(rng, directed=True, m=None, rich=False, huge=False):
             f = Fraction(*rng.choice(NICE + BIG + BIG)) if rng.random() < 0.8 else Fraction(rng.choice([0, 0, 1]))
         else:
             f = Fraction(*rng.choice(NICE)) if rng.random() < 0.9 else Fraction(rng.choice([0, 1]))
+        if rich and rng.random() < 0.1:
+            f = Fraction(rng.choice(FLOATS_NONDYADIC))       # the exact value of a non-dyadic double
         jf, jft = _pick_threshold_type(rng, f)
-        if vtype == 'F' and jft == 'D':
-            jft = 'F'                 # Fraction * Decimal is a TypeError in Python
-        if vtype == 'D' and jft in ('F', 'f'):
-            jft = 'D' if dec_ok(f) else 'i'
-            if jft == 'i' and f.denominator != 1:
-                jf, jft = '1/4', 'D'
+        # every combination of count type and parameter type is accepted since c90882d (exact rationals)
     # quota
     quota, qmode = None, 'name'
     if vtype != 'D' and rng.random() < 0.7:
@@ -1283,8 +1286,8 @@ def gen_openlist(rng, directed=True, m=None, rich=False, huge=False):
             qmode = rng.choice(['name', 'callable'])
     if rich:
         qf, qft = rng.choice(QF_RICH)
-        if qft == 'D' and quota not in INT_QUOTAS:
-            qft = 'F'                 # Fraction * Decimal is a TypeError in Python
+        if rng.random() < 0.1:
+            qf, qft = num_str(Fraction(rng.choice(FLOATS_NONDYADIC + [1.4]))), 'f'
     else:
         qf, qft = rng.choice([('1', 'i'), ('1', 'i'), ('1', 'F'), ('1/2', 'F'), ('1/2', 'F')])
     case = {'op': 'openlist', 'n': n, 'list': clist, 'jump_fraction': jf, '_jftype': jft, 'quota': quota,
@@ -1357,7 +1360,7 @@ def gen_decimal_context(rng):
             continue
         case['votes'], case['_types'] = enc_votes(list(zip(_shuffled(rng, ids), vals)))
         case['_tags'] = ['openlist']
-        if not py_arith_exact(case):
+        if arith_class(case) == 'decimal':
             return case
     return None
 
@@ -1410,13 +1413,9 @@ def gen_falsy_openlist(rng):
     votes jumps (and the zero-vote ones too when equality is accepted)"""
     c = gen_openlist(rng, directed=False)
     if rng.random() < 0.5 or c['quota'] is None:
-        c['jump_fraction'], c['_jftype'] = '0', rng.choice(['i', 'F', 'D'])
-        if 'F' in c['_types'] and c['_jftype'] == 'D':
-            c['_jftype'] = 'F'                # Fraction * Decimal is a TypeError in Python
-        if 'D' in c['_types'] and c['_jftype'] == 'F':
-            c['_jftype'] = 'D'                # Decimal * Fraction too
+        c['jump_fraction'], c['_jftype'] = '0', rng.choice(['i', 'F', 'D', 'f'])
     else:
-        c['quota_fraction'], c['_qftype'] = '0', rng.choice(['i', 'F', 'D'] if c['quota'] in INT_QUOTAS else ['i', 'F'])
+        c['quota_fraction'], c['_qftype'] = '0', rng.choice(['i', 'F', 'D', 'f'])
     if c['votes'] and rng.random() < 0.7:
         c['votes'][-1][1] = '0'
         if len(c['votes']) > 2:
@@ -1819,8 +1818,18 @@ def _posthoc_tags(c):
     elif op == 'openlist':
         votes = fvotes(c['votes'])
         thr = open_threshold(c, sum(votes.values()))
-        if not py_arith_exact(c):
-            tags.append('decimal_context_inexact')
+        ac = arith_class(c)
+        if ac == 'decimal':
+            tags.append('decimal_context_inexact')      # the input class of the defect repaired by c90882d
+        elif ac == 'float':
+            tags.append('float_arith_inexact')
+        vt = set(c.get('_types') or [])
+        pt = {c.get('_jftype') if c.get('jump_fraction') is not None else None,
+              c.get('_qftype') if c.get('quota') is not None else None}
+        if 'F' in vt and 'D' in pt:
+            tags.append('mixed_F_votes_D_param')
+        if 'D' in vt and ('F' in pt or 'f' in pt):
+            tags.append('mixed_D_votes_F_param')
         if any(i not in votes for i in c['list']):
             tags.append('list_member_without_votes')
         if any(i not in c['list'] for i in votes):
@@ -1858,14 +1867,13 @@ def _posthoc_tags(c):
             _num_tags(tags, c['quota_fraction'], c.get('_qftype', 'F'), 'quota_fraction', hit)
             if c.get('_qftype') == 'D':
                 tags.append('decimal_quota_fraction')
-        if py_arith_exact(c):
-            _sens(tags, c, spec_openlist, 'jump_fraction', None)
-            _sens(tags, c, spec_openlist, 'quota_function', None, 'quota')
-            if c.get('quota') is not None:
-                _sens(tags, c, spec_openlist, 'quota_fraction', '1')
-            _sens(tags, c, spec_openlist, 'take_higher', False)
-            _sens(tags, c, spec_openlist, 'accept_equal', False)
-            _sens(tags, c, spec_openlist, 'list_precedence', False)
+        _sens(tags, c, spec_openlist, 'jump_fraction', None)
+        _sens(tags, c, spec_openlist, 'quota_function', None, 'quota')
+        if c.get('quota') is not None:
+            _sens(tags, c, spec_openlist, 'quota_fraction', '1')
+        _sens(tags, c, spec_openlist, 'take_higher', False)
+        _sens(tags, c, spec_openlist, 'accept_equal', False)
+        _sens(tags, c, spec_openlist, 'list_precedence', False)
         if c.get('_warm'):
             try:
                 w = dict(c)
@@ -1920,11 +1928,12 @@ RULE = ('[audit dimensions, see AUDIT] Constructed boundary inputs: for t = p/q 
         'scopes (thresholds over {0..3}^<=4 on every attainable share; open lists of <=4 members over {0,1,2} votes with '
         'all switches).  Non-trivial = not an error and at least two candidates.')
 NOT_VERIFIED = ['dict insertion order is the protocol order (CPython dict semantics)',
-                'Decimal/Fraction/int/float COMPARISON is exact; ARITHMETIC on Decimal / float parameters of ThresholdOpenList '
-                '(total*jump_fraction, quota*quota_fraction) is exact only while the product fits the Decimal context (28 digits) / '
-                'a double — beyond that the implementation deviates (open finding C16-openlist-decimal-context-rounding; such cases '
-                'are generated, tagged decimal_context_inexact and matched by signature); inputs whose numeric types '
-                'cannot be combined in Python (Fraction*Decimal, Fraction(Decimal, ...)) are outside the model',
+                'Decimal/Fraction/int/float COMPARISON is exact; ThresholdOpenList converts the vote total, the quota and both '
+                'fractions to exact rationals before multiplying (c90882d), so every type combination of counts and parameters '
+                'is generated and must agree with the exact model (tags decimal_context_inexact / float_arith_inexact name the '
+                'inputs on which the parameters\' own arithmetic would round); outside the model: sum() of Decimal counts beyond '
+                '28 digits, vote dicts mixing Decimal and Fraction counts (sum() raises TypeError), Decimal counts with '
+                'RelativeThreshold or with a quota function (Fraction(Decimal, ...) raises TypeError)',
                 'AlternativeThresholds: iteration order of the frozenset of results (order among equal mean ranks) — '
                 'compared up to permutation within equal mean ranks',
                 'CoalitionMemberBracketer: iteration order of the frozenset of member counts (only decides which of two '
@@ -1956,4 +1965,6 @@ LEVEL_TEXT = ('The filter conditions of AbsoluteThreshold / RelativeThreshold ar
               'places alone and hands a tie to its highest-listed members.')
 LEVEL_NOTE = ('Trusted: Lean kernel + propext/Classical.choice/Quot.sound; translate.py for the quota functions; the correspondence '
               'harness (bounded by its generator); CPython dict order, exact comparison of numeric types, hash-order independence '
-              'as listed under modelled_not_verified.')
+              'as listed under modelled_not_verified.  The exactness of the open-list thresholds for Decimal / float parameters '
+              'is no longer an assumption: the code converts to exact rationals (c90882d), the model multiplies rationals, and '
+              'the former witness of the context-rounding defect is evaluated in Lean (example in Props/C16.lean).')
